@@ -35,6 +35,9 @@ func init() {
 }
 
 func runC02(c *an.Ctx) {
+	// ---- R12: a profile's custom rules are compiled anew when the profile was updated
+	c.Floor("C02-R12", 1)
+	c.Borrow("C02-R12", runC12, func(o an.Obligation) bool { return o.Rule == "C12-R5" })
 	c.Floor("C02-R11", 2)
 	mainmwFilterSteps(c, "C02-R11")
 	c.Floor("C02-R10", 3)
